@@ -27,6 +27,7 @@ def check(ctx):
     link_writers(ctx, P, views)
     c07.block_keeps_server(ctx, P, views, iters)
     busy_time_accounting(ctx, P, views)
+    class_change_disarmed(ctx, P, views, iters)
     ctx.assume("custom server_priority_function / service disciplines return an element of their argument")
 
 
@@ -145,6 +146,36 @@ class _Unfold(ast.NodeTransformer):
         return n
 
 
+def class_change_disarmed(ctx, P, views, iters):
+    """a customer that enters service must leave the waiting-customer scans: the start of a waiting customer is followed, in the same activation, by
+    reset_class_change(that customer).  Otherwise the class-change handler later runs for a customer in service and decide_preempt/attach_server hands it a
+    second server while it still holds the first."""
+    ob = ctx.ob("CCOFF", "every service start of a waiting customer disarms its class-change timer (reset_class_change) in the same activation")
+    done = set()
+    n = 0
+    for view in views:
+        if "PSNode" in view.mro:
+            continue        # processor-sharing nodes have c = inf: no class-change events are produced there
+        for s in typestate.starts(P, view, iters):
+            e = s["event"]
+            if e.d["value"] != "self.now":
+                continue
+            kind, _ = typestate.classify_customer(s["site"], s["params"])
+            if kind == "INTERRUPTED":
+                continue        # restarted customers were in service before: their timer is already off
+            n += 1
+            tok = s["token"].strip("()")
+            evs = s["state"].events
+            off = [x for x in evs[s["idx"]:] if x.kind == "call" and x.d["meth"] == "reset_class_change" and (x.d["args"] + ["?"])[0].strip("()") == tok and x.frame.fid == e.frame.fid]
+            ob.ok("%s:%s" % (e.frame.qual, s["root"]), "%s from %s: start of %s, reset_class_change: %s" % (e.frame.qual, s["root"], tok, bool(off)))
+            if not off and e.frame.qual not in done:
+                done.add(e.frame.qual)
+                ctx.violation(ob, "R4.must-follow", e.frame.qual, e.text, "class-change-timer-left-armed",
+                              "%s starts service here but reset_class_change(%s) does not follow: its pending class change stays cached, fires while it is in service, and "
+                              "decide_preempt/attach_server then gives it a second server" % (tok.split("__")[0], tok.split("__")[0]), e.where, witness(s["state"], 16))
+    ctx.floor("service starts of waiting customers", n, 5)
+
+
 def _lin(node):
     from ..lin import linear
     t = _Unfold().visit(ast.parse(unparse(node), mode="eval").body)
@@ -199,6 +230,28 @@ def busy_time_accounting(ctx, P, views):
                             okb = True
                     if not okb:
                         ctx.violation(ob, "R8.busy-time", "%s.wrap_up_servers" % cls.name, unparse(x)[:80], "accounting-guard", "only a busy server has a running service to credit", loc(x))
+        # kill_server archives the server's busy_time: nothing may be credited to a server after it has been archived
+        for m in view.methods():
+            cls2, fn2 = view.resolve(m)
+            if not any(isinstance(x, ast.Call) and call_name(x) == "kill_server" for x in rules.walk(P, view, fn2)):
+                continue
+            w = Walker(P, view, keep=lambda e: (e.kind == "call" and e.d["meth"] == "kill_server") or (e.kind in ("assign", "aug") and e.d["target"].endswith(".busy_time")),
+                       inline=lambda ev: rules.new_helper(ev) and ev.d["meth"] != "kill_server")
+            late = None
+            for st in w.paths_of(cls2, fn2):
+                if st.status == "raise":
+                    continue
+                killed = set()
+                for e in st.events:
+                    if e.kind == "call":
+                        killed.add((e.d["args"] + ["?"])[0])
+                        ob.ok("%s.%s:kill" % (cls2.name, m), "%s.%s: %s" % (cls2.name, m, e.text))
+                    elif e.d["target"][: -len(".busy_time")] in killed:
+                        late = late or (e, st)
+            if late:
+                e, st = late
+                ctx.violation(ob, "R8.busy-time", "%s.%s" % (cls2.name, m), e.text[:100], "credited-after-archive",
+                              "kill_server has already copied this server's busy_time into all_servers_busy: time credited afterwards never reaches the utilisation", e.where, witness(st))
         cls, fn = view.method("find_server_utilisation")
         for x in ast.walk(fn):
             if isinstance(x, ast.Assign) and unparse(x.targets[0]) == "self.server_utilisation" and unparse(x.value) != "None":
